@@ -137,6 +137,23 @@ func (g *gen) wrapSpy(e string) string {
 	return e
 }
 
+// par parenthesises an operand that is more than one token: this engine's expression parser does not
+// accept a filter (or another operator) on the right-hand operand of a binary operator without them, and a
+// program that does not parse explores nothing.
+func par(e string) string {
+	simple := true
+	for _, c := range e {
+		if !(c == '.' || c == '_' || c >= '0' && c <= '9' || c >= 'a' && c <= 'z' || c >= 'A' && c <= 'Z') {
+			simple = false
+			break
+		}
+	}
+	if simple || (strings.HasPrefix(e, "(") && strings.HasSuffix(e, ")") && strings.Count(e, "(") == 1) {
+		return e
+	}
+	return "(" + e + ")"
+}
+
 var strVars = []string{"ns", "nk|first", "nk|keys|first", "s1", "s2", "p1.Name", "pp.Name", "m1.k1", "m1['k2']", "sl[0]", "u1", "g1", "gm.k", "gp.Name", "S1", "S2", "p1.name", "m1.K1"}
 var intVars = []string{"n1", "n2", "p1.Age", "m1.num", "gn", "loop.index"}
 
@@ -161,9 +178,9 @@ func (g *gen) scalar(d int) string {
 	}
 	switch g.r.N(16) {
 	case 0:
-		return g.scalar(d-1) + " ~ " + g.scalar(d-1)
+		return par(g.scalar(d-1)) + " ~ " + par(g.scalar(d-1))
 	case 1:
-		return g.num(d-1) + pick(g.r, []string{" + ", " - ", " * "}) + g.num(d-1)
+		return par(g.num(d-1)) + pick(g.r, []string{" + ", " - ", " * "}) + par(g.num(d-1))
 	case 2, 3:
 		if g.f.Spies && g.f.SpyPct > 0 && g.r.P(g.f.SpyPct/2) {
 			// a fallible callback as a filter ARGUMENT
@@ -194,7 +211,7 @@ func (g *gen) scalar(d int) string {
 		return g.scalar(0)
 	case 8:
 		if g.f.Spies {
-			return g.scalar(d-1) + "|spyf('" + g.spyID() + "')"
+			return par(g.scalar(d-1)) + "|spyf('" + g.spyID() + "')"
 		}
 		return g.scalar(0)
 	case 9:
@@ -207,7 +224,7 @@ func (g *gen) scalar(d int) string {
 		}
 		return pick(g.r, mapVars) + "|length"
 	case 12:
-		return g.num(d-1) + "|" + pick(g.r, []string{"abs", "round", "number_format(2)", "number_format(1, ',', '.')"})
+		return par(g.num(d-1)) + "|" + pick(g.r, []string{"abs", "round", "number_format(2)", "number_format(1, ',', '.')"})
 	case 13:
 		if g.f.Spies && g.f.SpyPct > 0 && g.r.P(g.f.SpyPct) {
 			// a fallible callback in one of many expression positions
@@ -224,7 +241,7 @@ func (g *gen) scalar(d int) string {
 		}
 		return "pp.Greeting"
 	case 14:
-		return pick(g.r, []string{"lab", "cycle(['a', 'b', 'c'], n1)", "json_encode(l1)", "length(l1)", "(n1 is same_as(n1)) ? 'same' : 'diff'", "cycle(sl, loop.index)", "json_encode(gm.inner)", "(s1 is same_as('x')) ? 1 : 2"})
+		return pick(g.r, []string{"lab", "cycle(['a', 'b', 'c'], n1)", "json_encode(l1)", "length(l1)", "(n1 is same_as(n1)) ? 'same' : 'diff'", "cycle(sl, loop.index|default(2))", "json_encode(gm.inner)", "(s1 is same_as('x')) ? 1 : 2"})
 	default:
 		return g.scalar(0)
 	}
@@ -246,18 +263,18 @@ func (g *gen) boolean(d int) string {
 	}
 	switch g.r.N(12) {
 	case 0:
-		return g.boolean(d-1) + " and " + g.boolean(d-1)
+		return par(g.boolean(d-1)) + " and " + par(g.boolean(d-1))
 	case 1:
-		return g.boolean(d-1) + " or " + g.boolean(d-1)
+		return par(g.boolean(d-1)) + " or " + par(g.boolean(d-1))
 	case 2:
 		return "not (" + g.boolean(d-1) + ")"
 	case 3:
-		return g.num(d-1) + pick(g.r, []string{" == ", " != ", " < ", " > ", " <= ", " >= "}) + g.num(d-1)
+		return par(g.num(d-1)) + pick(g.r, []string{" == ", " != ", " < ", " > ", " <= ", " >= "}) + par(g.num(d-1))
 	case 4:
 		return pick(g.r, strVars) + " is " + pick(g.r, []string{"defined", "empty", "null", "not defined", "iterable", "not empty", "none", "same_as(s1)", "not same_as(s2)", "not iterable"})
 	case 5:
 		if g.f.Spies && g.f.SpyPct > 0 && g.r.P(g.f.SpyPct/2) {
-			return g.at("test-arg", func() string { return g.num(d-1) + " is divisible_by(spy('" + g.spyID() + "', 3))" })
+			return g.at("test-arg", func() string { return par(g.num(d-1)) + " is divisible_by(spy('" + g.spyID() + "', 3))" })
 		}
 		return g.num(d-1) + " is " + pick(g.r, []string{"even", "odd", "divisible_by(3)"})
 	case 6:
@@ -279,7 +296,7 @@ func (g *gen) boolean(d int) string {
 		}
 		return g.boolean(0)
 	case 10:
-		return pick(g.r, strVars) + " == " + g.strLit()
+		return par(pick(g.r, strVars)) + " == " + g.strLit()
 	default:
 		return g.boolean(0)
 	}
@@ -292,7 +309,13 @@ func (g *gen) list(d int) string {
 	case 1:
 		return "range(1, " + fmt.Sprint(g.r.N(4)+1) + ")"
 	case 2:
-		return pick(g.r, listVars[:4]) + "|" + pick(g.r, listFilters)
+		l, f := pick(g.r, listVars[:4]), pick(g.r, listFilters)
+		if l != "l1" && strings.HasPrefix(f, "merge(") {
+			// merging foreign element types into a typed slice panics in this engine (C05's subject): it would only
+			// cut the run short
+			f = "merge(" + l + ")"
+		}
+		return l + "|" + f
 	case 3:
 		return "s1|split('" + pick(g.r, []string{",", "a", " "}) + "')"
 	case 4:
@@ -427,7 +450,19 @@ func (g *gen) seg(d int) string {
 				return g.open("set incname = '"+name+"'") + g.open("include incname")
 			}
 			if g.r.P(40) {
-				s += " with {'s1': " + g.at("include-with", func() string { return g.wrapSpy(g.scalar(1)) }) + ", 'extra': " + g.scalar(0) + "}"
+				v := g.at("include-with", func() string { return g.wrapSpy(g.scalar(1)) })
+				if strings.Contains(v, ",") {
+					// the include parser splits the hash at commas: no multi-argument calls in its values
+					v = pick(g.r, strVars)
+					if g.f.Spies && g.f.SpyPct > 0 {
+						v = g.at("include-with", func() string { return "(" + pick(g.r, strVars) + ")|spyf('" + g.spyID() + "')" })
+					}
+				}
+				x := g.scalar(0)
+				if strings.Contains(x, ",") {
+					x = "0"
+				}
+				s += " with {'s1': " + v + ", 'extra': " + x + "}"
 				if g.r.P(40) {
 					s += " only"
 				}
@@ -451,6 +486,14 @@ func (g *gen) seg(d int) string {
 	case 13:
 		if g.f.Macros {
 			m := fmt.Sprintf("mac%d", g.r.N(100))
+			if g.r.P(25) {
+				// a macro that calls itself, and one that calls another macro of the same template
+				body := g.at("macro-body", func() string { return g.print(g.wrapSpy(g.scalar(0))) })
+				if g.r.P(50) {
+					return g.open("macro "+m+"(n, acc = 'r')") + g.print("n") + body + g.open("if n > 0") + g.print("_self."+m+"(n - 1, acc ~ n)") + g.open("else") + g.print("acc") + g.open("endif") + g.open("endmacro") + g.print("_self."+m+"("+pick(g.r, []string{"2", "3", "n1 % 3"})+")")
+				}
+				return g.open("macro "+m+"i(a)") + "<" + g.print("a") + body + ">" + g.open("endmacro") + g.open("macro "+m+"(a, b)") + g.print("_self."+m+"i(a)") + g.print("_self."+m+"i(b|default('nb'))") + g.open("endmacro") + g.print("_self."+m+"("+g.scalar(0)+")") + g.print(m+"("+g.scalar(0)+", "+g.at("macro-arg", func() string { return g.wrapSpy(g.scalar(1)) })+")")
+			}
 			def := g.open("macro "+m+"(a, b = "+g.at("macro-default", func() string { return g.wrapSpy(g.strLit()) })+")") + "[" + g.print("a") + "|" + g.print("b") + "]" + g.at("macro-body", func() string { return g.body(0) }) + g.open("endmacro")
 			call := g.print(m + "(" + g.at("macro-arg", func() string { return g.wrapSpy(g.scalar(1)) }) + ")")
 			if g.r.P(40) {
@@ -507,7 +550,14 @@ func (g *gen) seg(d int) string {
 
 // failing emits a segment that makes rendering fail.
 func (g *gen) failing() string {
-	switch g.r.N(6) {
+	switch g.r.N(8) {
+	case 6:
+		// a render that ends in a recovered panic after it has produced output (merging foreign element types into a
+		// typed slice panics in this engine): what the next render sees must not depend on it
+		return g.text() + g.print("s1") + g.open("for z in sl|merge([7, 8])") + g.print("z") + g.open("endfor")
+	case 7:
+		// a failure in the middle of nested output-capturing constructs
+		return g.open("apply upper") + "cap " + g.print("s1") + g.open("spaceless") + "<b> " + g.print("nosuchfunc(2)") + " </b>" + g.open("endspaceless") + g.open("endapply")
 	case 0:
 		return g.print("s1|nosuchfilter")
 	case 1:
